@@ -287,6 +287,10 @@ structure Overlay where
   name : String
   pfx : Bytes
   handlers : List Handler
+  /-- members of the receive / send path that this overlay class (or a class between it and EZPackOverlay / Community)
+      OVERRIDES: `_verify_signature`, `_ez_unpack_auth`, `_ez_pack`, `ezr_pack`, `on_packet`, `add_message_handler`.  The
+      theorems are about the base definitions; they speak about an overlay only if this list is empty. -/
+  overrides : List String := []
   deriving Repr
 
 def Overlay.find (o : Overlay) (m : Nat) : Option Handler := o.handlers.find? (fun h => h.msgId == m)
